@@ -366,6 +366,19 @@ func init() {
 		*b = append(buf, args[1])
 		return iface{}
 	})
+	reg("(*strings.Builder).WriteRune", func(fr *frame, args []value) value {
+		b := builderBuf(args)
+		buf, _ := (*b).([]value)
+		var enc []value
+		switch r := args[1].(type) {
+		case symv:
+			enc = strBytes(fr.runeToString(r))
+		default:
+			enc = strBytes(string(rune(asInt64(r))))
+		}
+		*b = append(buf, enc...)
+		return tuple{len(enc), iface{}}
+	})
 	reg("(*strings.Builder).Write", func(fr *frame, args []value) value {
 		b := builderBuf(args)
 		buf, _ := (*b).([]value)
